@@ -9,7 +9,7 @@ EXPLANATION = ("L1 reply senders are owned only by the driver's two routing maps
                "on a channel is propagated with `?`, matched into an Err return or (finish only) logged - never unwrapped, never retried (the stream's stepping functions are evaluated from the values of the stream state "
                "in which their one referencing shim reaches the call, so a branch on an excluded state is not an answer to a closed channel); "
                "L4 the request send (with `?`) precedes every await in the operation issue point; L5 the Unbind arm shuts the socket down "
-               "and closes the sink before acknowledging, and the acknowledgement is sent for every non-Single operation; L6 the one-operation driver (StartTLS set-up) hands the connection back only on paths that have established that no reply is owed; L7 the transport wrapper's AsyncRead / AsyncWrite methods each delegate, per variant, to the same method of the wrapped stream (shutdown reaches the socket of every transport kind); L9 on every path of the request arm on which the operation is Unbind the driver loop is left, so the reply senders of operations still waiting are dropped. Not decided: "
+               "and closes the sink before acknowledging, and the acknowledgement is sent for every non-Single operation; L6 the one-operation driver (StartTLS set-up) hands the connection back only on paths that have established that no reply is owed: the flag such a path tests is shown, by induction over the arms' enumerated paths, to become true only where a reply was sent on the sender taken out of the result map under the decoded ID; L7 the transport wrapper's AsyncRead / AsyncWrite methods each delegate, per variant, to the same method of the wrapped stream (shutdown reaches the socket of every transport kind); L9 on every path of the request arm on which the operation is Unbind the driver loop is left, so the reply senders of operations still waiting are dropped. Not decided: "
                "liveness itself (tokio wakes waiters; a stalled write eventually fails; select! fairness).")
 TRUSTED = ['dropping a tokio Sender wakes and fails its receiver', 'tokio select!/scheduler fairness']
 UNDECIDED = ['liveness under the scheduler', 'fault injection at every byte boundary (dynamic notion)']
@@ -389,45 +389,86 @@ def run(ctx):
                 if a[0] == 'is' and a[1][0] == 'param' and a[2].startswith(mode_ty.rsplit('::', 1)[-1] + '::') and a[2].rsplit('::', 1)[-1] not in cont_variants and t is False and len(modes[0]['variants']) == 2:
                     return True
             return False
+        _flag = {}
         def answered_flag(b):
-            """The local b is a flag that starts false and is only ever set to true in the response arm, on the branch that took a
-            waiting operation's sender out of the result map (i.e. it records that the operation's reply has been handed over)."""
+            """(holds, why not): the local b is a flag with the invariant  b  =>  a reply has been handed to a waiting operation.
+            Decided by induction over the iterations of the driver loop, on the enumerated paths of the select! arms - not on how
+            the assignments are spelled (`b = true` inside the `Some` arm, `b |= matched` / `b = b || matched` with `matched` the
+            value of a `match` on the lookup, `if matched { b = true }` after it, a flattened arm whose `None` alternative left
+            by `continue`: all give the same paths):
+              base   b is declared outside the loop and starts false;
+              step   every arm is evaluated with b = false on entry (when b is already true the invariant holds whatever the arm
+                     does: a reply handed over stays handed over).  On every path that leaves the arm with b anything but false,
+                     the path has sent a reply on the sender it took out of the result map under the ID decoded from the message
+                     at hand (the lookup answered Some on that path) - the one event that answers a single-result operation;
+              frame  nothing else writes b: every assignment lies inside an arm (and so on its paths), and no `&mut` of it is
+                     handed to code the paths do not show (mem::take / mem::replace on it are modelled)."""
+            if b in _flag:
+                return _flag[b]
+            _flag[b] = res = _answered_flag(b)
+            return res
+        def _answered_flag(b):
             d = L.defs.get(b)
-            if d is None or d.get('src') is None or hirq.const_eval(f, d['src']) is not False:
-                return False
-            asg = L.assigns.get(b, [])
-            if not asg:
-                return False
-            for a in asg:
-                if a['k'] != 'Assign' or hirq.const_eval(f, a['r']) is not True:
-                    return False
-                under = False
-                for cd in hirq.conditions(L.context(a)):
-                    if cd[0] == 'if' and cd[2] == 'then' and cd[1]['cond']['k'] == 'LetExpr' and hirq.pat_variant(cd[1]['cond']['pat']) == 'Some':
-                        init = cd[1]['cond']['init']
-                        if init.get('k') == 'MethodCall' and init.get('name') == 'remove' and C.is_map_place(init['recv'], 'result'):
-                            under = True
-                if not under:
-                    return False
-            return True
+            if d is None or d.get('kind') != 'let' or d['proj'] or d.get('src') is None:
+                return False, 'it is not a plain local with an initial value'
+            if main_loop is None or any(x is d['node'] for x, _ in walk(main_loop)):
+                return False, 'it is declared inside the loop: it does not carry anything from one message to the next'
+            init = [o for o in absx.Interp(f, L, result_combinators=True).ev(d['src'], absx.St({}))]
+            if len(init) != 1 or init[0].kind != 'val' or init[0].val != absx.FALSE:
+                return False, 'it does not start as false'
+            arm_node = {}
+            for role, a in C.arms.items():
+                if isinstance(a, dict):
+                    for x, _ in walk(a['body']):
+                        arm_node[id(x)] = role
+            for a in L.assigns.get(b, []):
+                if id(a) not in arm_node:
+                    return False, 'it is assigned at %s, outside the select! arms (not on their enumerated paths)' % loc(a)
+            for x, c in walk(L.root):
+                if x['k'] == 'AddrOf' and x.get('mut') and hirq.local_of(x['e']) == b:
+                    par = c[-1][0] if c else None
+                    if not (par is not None and par['k'] == 'Call' and (callee_of(par) or '') in ('core::mem::take', 'core::mem::replace') and par['args'] and par['args'][0] is x):
+                        return False, 'a mutable reference to it is handed on at %s' % loc(x)
+                if x['k'] == 'Closure' and any(y['k'] == 'Path' and y.get('res') == 'local' and y.get('bind') == b for y, _ in walk(x)) and id(x) != id(L.root):
+                    return False, 'a closure captures it at %s' % loc(x)
+            for role, a in C.arms.items():
+                if not isinstance(a, dict):
+                    if any(id(x) in {id(n) for n in L.assigns.get(b, [])} for arm in a for x, _ in walk(arm['body'])):
+                        return False, 'it is assigned in an arm of the select! that is not one of the driver\'s four'
+                    continue
+                for o in drv.arm_paths(C, role, locals_={b: absx.FALSE})[0]:
+                    if o.kind == 'div':
+                        continue
+                    v = o.st.env.get(b)
+                    if v == absx.FALSE:
+                        continue
+                    if not drv.replies_to_registered(C, o, drv.DECODED_ID, 'result', taken_out=True):
+                        pcs = ', '.join(('' if t else 'not ') + absx.fmt(sem.strip_site(x))[:70] for x, t in o.st.pc if x[0] == 'is' and x[1][0] == 'call')
+                        return False, ('a path of the %s arm leaves it %s without having handed a reply to the operation registered under the decoded message ID%s'
+                                       % (role, 'true' if v == absx.TRUE else 'possibly true (%s)' % absx.fmt(v)[:40], (' (path: %s)' % pcs) if pcs else ''))
+            return True, ''
         def no_waiter(o):
             # (a) a flag that records "the reply has been handed over" is set on this path
+            why = None
             for a, t in o.st.pc:
-                if a[0] == 'unbound' and t is True and answered_flag(a[1]):
-                    return True
-            # (b) the path itself (a `return Ok(..)` inside the response arm) has handed a reply to a sender taken out of the result map
-            for i, args, node in drv.sends(o, anchors.T_RESULT_SENDER):
-                if sem.has(args[0], lambda x: x[0] == 'call' and x[1].rsplit('::', 1)[-1] in ('remove', 'remove_entry') and x[2] and drv.norm_self(x[2][0]) == ('field', drv.SELF, C.resultmap)):
-                    return True
-            return False
+                if a[0] == 'unbound' and t is True:
+                    ok, w = answered_flag(a[1])
+                    if ok:
+                        return True, ''
+                    why = 'the flag `%s` it relies on does not mean "answered": %s' % (a[2], w)
+            # (b) the path itself (a `return Ok(..)` inside the response arm) has handed a reply to the sender taken out of the result map under the decoded ID
+            if drv.replies_to_registered(C, o, drv.DECODED_ID, 'result', taken_out=True):
+                return True, ''
+            return False, why or 'the path tests no flag that records a delivered reply, and delivers none itself'
         for o in tail_outs + arm_rets:
             if not hands_back(o.val) or continuous_only(o):
                 continue
             keeps.append(o)
-            ctx.add('L6.handed-back-connection-holds-no-waiter', 'after the loop|%s' % ','.join(('' if t else '!') + absx.fmt(a)[-40:] for a, t in o.st.pc)[:100], loc(main_loop), no_waiter(o),
+            nw, why = no_waiter(o)
+            ctx.add('L6.handed-back-connection-holds-no-waiter', 'after the loop|%s' % ','.join(('' if t else '!') + absx.fmt(a)[-40:] for a, t in o.st.pc)[:100], loc(main_loop), nw,
                     'in the one-operation mode the driver returns the connection to a caller that keeps it (StartTLS set-up) on a path that has not '
                     'established that the operation was answered: when the peer closes, or sends something else, before answering, the pending operation\'s sender '
-                    'stays alive in the returned connection and connection establishment waits forever')
+                    'stays alive in the returned connection and connection establishment waits forever [%s]' % why)
         ctx.floor('L6', 'paths handing the connection back outside the continuous mode', len(keeps), 1)
 
     # ---- L7 the transport wrapper hands every AsyncRead / AsyncWrite call to the stream it wraps (Unbind's shutdown and close end there)
